@@ -96,7 +96,7 @@ def gen(r, tier, i):
         total -= calls.pop()[0]
     calls.append([r.choice([1.0, 2.0, 2.5]), 'update'])
     return {'procs': procs, 'overrides': overrides, 'script': script, 'calls': calls,
-            't0': r.choice([0, 0, 0.0, 2.0, 10.5]), 'emit_steps': [r.choice([2, 3, 0.5, 2.5])], 'legacy_steps': r.random() < 0.2,
+            't0': r.choice([0, 0, 0.0, 2.0, 10.5]), 'emit_steps': [r.choice([2, 3, 0.5, 2.5])], 'legacy_steps': r.random() < 0.2, 'late': r.choice([None, None, 'first', 'last']),
             'emit_sum': r.random() < 0.8, 'emit_cell': r.random() < 0.7, 'inner_procs': inner_procs}
 
 
@@ -218,12 +218,27 @@ def build(spec, emit_step):
                 upd['cells'] = cells
             return upd
 
+    class Late(Process):
+        """Declares further variables (one nested) in the store that p0's port B covers with a branch-level flag;
+        listed before or after p0."""
+        def ports_schema(self):
+            return {'L': {'w': {'_default': 4}, 'g': {'x': {'_default': 5}}}}
+
+        def next_update(self, timestep, states):
+            return {'L': {'w': 1}}
+
     processes = {}
     topology = {}
+    if spec.get('late') == 'first':
+        processes['late'] = Late({'timestep': 1.0})
     for p in spec['procs']:
         name = 'p%d' % p['pid']
         processes[name] = EmitProc({'ts': p['ts'], 'emit': p['emit'], 'bflag': p.get('bflag', True)})
         topology[name] = {'S': ('st', name), 'shared': ('shared',), 'B': ('stb', name)}
+    if spec.get('late') == 'last':
+        processes['late'] = Late({'timestep': 1.0})
+    if spec.get('late'):
+        topology['late'] = {'L': ('stb', 'p%d' % spec['procs'][0]['pid'])}
     processes['dir'] = Director({'script': spec['script'], 'timestep': 1.0})
     processes['deepp'] = Deep({})
     topology['deepp'] = {'D': ('deep', 'blob'), 'E': ('deep',)}
@@ -259,6 +274,11 @@ def flags(spec):
     for p in spec['procs']:
         f[('stb', 'p%d' % p['pid'], 'u')] = bool(p.get('bflag', True))
         f[('stb', 'p%d' % p['pid'], 'v')] = not p.get('bflag', True)
+    if spec.get('late'):
+        # declared by another process (listed before or after) without flags of their own: the branch-level flag
+        first = spec['procs'][0]
+        f[('stb', 'p%d' % first['pid'], 'w')] = bool(first.get('bflag', True))
+        f[('stb', 'p%d' % first['pid'], 'g', 'x')] = bool(first.get('bflag', True))
     f[('shared', 'n')] = True
     f[('shared', 'hidden')] = False
     f[('out', 'sum')] = spec['emit_sum']
@@ -293,6 +313,8 @@ def expected_row(spec, snap, fl):
     for p in spec['procs']:
         out['st'].setdefault('p%d' % p['pid'], {})
         out['stb'].setdefault('p%d' % p['pid'], {})
+    if spec.get('late'):
+        out['stb']['p%d' % spec['procs'][0]['pid']].setdefault('g', {})
     for path, v in flat(snap).items():
         if not path:
             continue
